@@ -210,8 +210,8 @@ def _useall(ctx, zone, floor):
         fn = None
         for p in range(1, argc + 1):
             ty = f["locals"][p]["ty"]
-            if ty in SCALAR or ty.startswith(("&", "fn", "*")):
-                continue
+            if ty in SCALAR or ty.startswith(("&", "fn", "*", "for<")) or " fn(" in ty[:40]:
+                continue        # references, raw pointers, function pointers
             core_adt = f["locals"][p].get("core") or f["locals"][p].get("adt") or ""
             if core_adt.endswith(("::Ty", "::TypeArgs", "::Polarity", "::Chirality")):
                 continue        # type annotations: a case that does not need the annotation may ignore it
